@@ -6,6 +6,8 @@ export CARGO_NET_OFFLINE=true
 mkdir -p work evidence .cache
 cp -n /repo/Cargo.lock host/Cargo.lock 2>/dev/null || true
 (cd host && cargo build --quiet)
+# second build of the host with the generator's dynamic_load + ssr arms (C17)
+(cd host && cargo build --quiet --features dynamic_load,ssr --target-dir "$PWD/target-dl") || echo "host (dynamic_load) build failed: C17 will report it"
 # warm the native replay crate (leptos + leptos_i18n build, ~40 s cold)
 /opt/veriftools/pyvenv/bin/python3 - <<'PY'
 import sys, os
